@@ -1,6 +1,9 @@
 //! Script file parsing (PROTOCOL.md sections 1 and 4). Every parse failure is a `BADSCRIPT`.
 
-use crate::{mock_io::WriterCfg, obs};
+use crate::{
+    mock_io::{SideCall, WriterCfg},
+    obs,
+};
 use poster::{
     reason::{AuthReason, DisconnectReason},
     QoS, RetainHandling,
@@ -216,7 +219,18 @@ fn default_cfg() -> Cfg {
             one: false,
             werr: None,
             wzero: None,
+            flush: SideCall::Ok,
+            close: SideCall::Ok,
         },
+    }
+}
+
+fn parse_side_call(val: &str) -> Option<SideCall> {
+    match val {
+        "ok" => Some(SideCall::Ok),
+        "err" => Some(SideCall::Err),
+        "pend" => Some(SideCall::Pend),
+        _ => None,
     }
 }
 
@@ -252,6 +266,8 @@ fn parse_cfg(line: &str) -> Option<Cfg> {
             }
             "werr" => cfg.writer.werr = Some(val.parse().ok()?),
             "wzero" => cfg.writer.wzero = Some(val.parse().ok()?),
+            "wflush" => cfg.writer.flush = parse_side_call(val)?,
+            "wclose" => cfg.writer.close = parse_side_call(val)?,
             _ => return None,
         }
     }
